@@ -87,8 +87,10 @@ static int validate_checksums(zckCtx *zck, zck_log_type bad_checksums) {
             size_t rsize = BUF_SIZE;
             if(BUF_SIZE > idx->comp_length - rlen)
                 rsize = idx->comp_length - rlen;
-            if(read_data(zck, buf, rsize) != rsize)
+            if(read_data(zck, buf, rsize) != rsize) {
                 zck_log(ZCK_LOG_DEBUG, "No more data");
+                break;
+            }
             if(!hash_update(zck, &(zck->check_chunk_hash), buf, rsize))
                 return 0;
             if(!zck->has_uncompressed_source) {
@@ -97,10 +99,16 @@ static int validate_checksums(zckCtx *zck, zck_log_type bad_checksums) {
             }
             rlen += rsize;
         }
-        int valid_chunk = validate_chunk(idx, bad_checksums);
-        if(!valid_chunk)
-            return 0;
-        idx->valid = valid_chunk;
+        int valid_chunk = -1;
+        if(rlen < idx->comp_length) {
+            /* A chunk that isn't completely in the file can't be valid */
+            idx->valid = -1;
+        } else {
+            valid_chunk = validate_chunk(idx, bad_checksums);
+            if(!valid_chunk)
+                return 0;
+            idx->valid = valid_chunk;
+        }
         if(all_good && valid_chunk != 1)
             all_good = false;
         if(zck->header_only)
@@ -409,21 +417,31 @@ int ZCK_PUBLIC_API zck_validate_data_checksum(zckCtx *zck) {
     char buf[BUF_SIZE] = {0};
     zckChunk *idx = zck->index.first;
     zck_log(ZCK_LOG_DEBUG, "Checking full hash");
-    while(idx) {
+    bool truncated = false;
+    while(idx && !truncated) {
         size_t to_read = idx->comp_length;
         while(to_read > 0) {
             size_t rb = BUF_SIZE;
             if(rb > to_read)
                 rb = to_read;
-            if(!read_data(zck, buf, rb))
+            ssize_t got = read_data(zck, buf, rb);
+            if(got < 0)
                 return 0;
+            if((size_t)got != rb) {
+                zck_log(ZCK_LOG_WARNING, "Data is shorter than the index says");
+                truncated = true;
+                break;
+            }
             if(!hash_update(zck, &(zck->check_full_hash), buf, rb))
                 return 0;
             to_read -= rb;
         }
         idx = idx->next;
     }
-    int ret = validate_file(zck, ZCK_LOG_WARNING);
+    /* Missing data can't match the data checksum */
+    int ret = -1;
+    if(!truncated)
+        ret = validate_file(zck, ZCK_LOG_WARNING);
     if(!seek_data(zck, zck->data_offset, SEEK_SET))
         return 0;
     if(!hash_init(zck, &(zck->check_full_hash), &(zck->hash_type)))
